@@ -147,7 +147,10 @@ def run_unit(u):
         custom = dict(CUSTOM_TEXT) if use_custom else None
         custom_ast = CUSTOM_AST if use_custom else {}
         case0 = cases.Case(tops, how, ['doc'], nsmap=nsmap)
-        soup = case0.soup
+        if rng.random() < .2:
+            # a detached subtree: its root element has no parent at all (closest/select/filter/match on a parentless root)
+            case0 = cases.Case(tops, how, ['detached', rng.randrange(1000)], nsmap=nsmap)
+        soup = case0.top_obj
         all_els = [e for e in soup.descendants if isinstance(e, bs4.Tag)]
         other = trees.build_api([E('div', {'class': ['x']}, [E('a', {'id': 'x'}), T('text', 'q'), E('b')])])
         for _s in range(2):
@@ -175,7 +178,7 @@ def run_unit(u):
                 desc = ref.desc(tsn)
                 unspec = any(e in Um for e in desc)
                 exp_sel = [e.obj for e in desc if e in Tm]
-                tk = 'doc' if tgt is soup else 'el'
+                tk = 'doc' if isinstance(tgt, bs4.BeautifulSoup) else ('detached-root' if tgt is soup else 'el')
                 rec = Recorder()
                 checks = []          # (description, event, expected, comparer)
 
@@ -207,10 +210,10 @@ def run_unit(u):
                     cur = ref.parent(cur)
                 chk('closest', rec.call('c.closest', comp.closest, tgt), ('unspec',) if c_unspec else ('is', exp_closest), 'one')
                 # match on the target itself (scope = itself)
-                m_exp = ('is', False) if tgt is soup else (('unspec',) if tsn in Um else ('is', tsn in Tm))
+                m_exp = ('is', False) if isinstance(tgt, bs4.BeautifulSoup) else (('unspec',) if tsn in Um else ('is', tsn in Tm))
                 chk('match', rec.call('c.match', comp.match, tgt), m_exp, 'one')
                 # filter(iterable): every item is matched with itself as scope
-                pool = [rng.choice(all_els) for _ in range(3)] + [other.a, bs4.Comment('c'), other.div, soup,
+                pool = [rng.choice(all_els or [other.b]) for _ in range(3)] + [other.a, bs4.Comment('c'), other.div, soup,
                                                                   bs4.NavigableString('n')]
                 rng.shuffle(pool)
                 exp_f = []
@@ -287,6 +290,7 @@ def run_unit(u):
                     res['evals'] += 1
                     bump('calls')
                     bump('op:' + ev['op'])
+                    bump('target:' + tk)
                     if 'ret' not in ev:
                         violation('%s on %s target: %s did not return (%r) for %r' % (
                             desc_, tk, ev['op'], ev.get('exc', 'CPU budget'), text), case0, ast, text, nsmap=nsmap,
